@@ -783,23 +783,32 @@ impl TreeSpec {
         Box::leak(Box::new(self.build_node()))
     }
 
+    /// Nodes are built with the library's own constructors (`Node::leaf`, `default_leaf`, `branch`,
+    /// `default_branch`, `root`), so that these are what every tree-based check exercises.
     fn build_node(&self) -> Node<'static, RigDev> {
         match self {
             TreeSpec::Leaf {
                 name,
                 default,
                 handler,
-            } => Node::Leaf {
-                name: Box::leak(name.clone().into_bytes().into_boxed_slice()),
-                default: *default,
-                handler: &HANDLERS[*handler as usize],
-            },
+            } => {
+                let n: &'static [u8] = Box::leak(name.clone().into_bytes().into_boxed_slice());
+                if *default {
+                    Node::default_leaf(n, &HANDLERS[*handler as usize])
+                } else {
+                    Node::leaf(n, &HANDLERS[*handler as usize])
+                }
+            }
             TreeSpec::Branch { name, default, sub } => {
                 let subs: Vec<Node<'static, RigDev>> = sub.iter().map(|s| s.build_node()).collect();
-                Node::Branch {
-                    name: Box::leak(name.clone().into_bytes().into_boxed_slice()),
-                    default: *default,
-                    sub: Box::leak(subs.into_boxed_slice()),
+                let n: &'static [u8] = Box::leak(name.clone().into_bytes().into_boxed_slice());
+                let sub: &'static [Node<'static, RigDev>] = Box::leak(subs.into_boxed_slice());
+                if *default {
+                    Node::default_branch(n, sub)
+                } else if n.is_empty() {
+                    Node::root(sub)
+                } else {
+                    Node::branch(n, sub)
                 }
             }
         }
